@@ -767,14 +767,9 @@ fn stream_alloc(rng: &mut Rng, n: usize, id: &mut usize, t: &mut Tally) {
             }
         }
         // ---- model
-        let rmap_size = variable.len() + insts.iter().map(|i| 1 + i.ps.is_some() as usize).sum::<usize>() + src.iter().filter(|(i, _)| *i > 255).count();
         let kind = if high { "alloc:source-ids-above-255" } else if variable.is_empty() { "alloc:static" } else { "alloc:variable" };
         *t.by_kind.entry(kind.to_string()).or_insert(0) += 1;
-        let coq = if high && rmap_size > 6 {
-            String::new()
-        } else {
-            format!("alloc_agrees {} {} {} {} {}", coq_bool(high), c_names(&order), c_axes(&axes), c_insts(&insts), c_names(&out))
-        };
+        let coq = format!("alloc_agrees {} {} {} {}", c_names(&order), c_axes(&axes), c_insts(&insts), c_names(&out));
         let show = format!("extend {o} (alloc {o} {} {})", c_axes(&axes), c_insts(&insts), o = c_names(&order));
         emit_case(*id, "alloc", coq, Some(show), !variable.is_empty(), format!("al:{:?}{:?}{:?}", order, axes, insts), json!({"src": src_json, "impl": out}));
         *id += 1;
@@ -1310,29 +1305,19 @@ fn run_font(t: &mut Tally, id: &mut usize, label: &str, c: &Cfg, reps: usize, ve
             continue;
         };
         let obs = check_font(t, c, d, version, &sj);
-        // iteration orders the model has to try
-        let default_names: Vec<&String> = c.instances.iter().filter(|i| c.axes.iter().zip(i.loc.iter()).filter(|(a, _)| !a.is_point()).all(|(a, v)| a.def == *v)).map(|i| &i.style).collect();
-        let rot = variable && default_names.iter().any(|n| d.names.iter().filter(|r| r.0 < 256 && r.1 == 3 && &&r.4 == n).count() > 1);
-        let high = c.records.iter().any(|(i, _)| *i > 255);
-        let rsize = c.axes.len() + c.instances.iter().map(|i| 1 + i.ps.is_some() as usize).sum::<usize>() + c.records.len();
-        let coq = if high && variable && rsize > 6 {
-            String::new()
-        } else {
-            format!(
-                "font_agrees {} {} {} {} {} {} {} {} {} (Some {}) {}",
-                coq_bool(rot),
-                coq_bool(high && variable),
-                c_adds,
-                coq_z(c.version_major.unwrap_or(0)),
-                coq_n(c.version_minor.unwrap_or(0) as u64),
-                cs(c.vendor.as_deref().unwrap_or("NONE")),
-                c_axes(&c.axes),
-                c_insts(&c.instances),
-                c_prog(&prog),
-                cs(version),
-                obs
-            )
-        };
+        // the repaired code has no iteration-order dependence left: one model evaluation
+        let coq = format!(
+            "font_agrees {} {} {} {} {} {} {} (Some {}) {}",
+            c_adds,
+            coq_z(c.version_major.unwrap_or(0)),
+            coq_n(c.version_minor.unwrap_or(0) as u64),
+            cs(c.vendor.as_deref().unwrap_or("NONE")),
+            c_axes(&c.axes),
+            c_insts(&c.instances),
+            c_prog(&prog),
+            cs(version),
+            obs
+        );
         let show = format!("nb_run {} {} {} {}", c_adds, coq_z(c.version_major.unwrap_or(0)), coq_n(c.version_minor.unwrap_or(0) as u64), cs(c.vendor.as_deref().unwrap_or("NONE")));
         emit_case(*id, "font", coq, Some(show), true, format!("f:{label}:{:?}", d.names), json!({"src": sj, "label": label, "impl_names": d.names, "impl_fvar": d.fvar_inst, "impl_feat": d.feat}));
         *id += 1;
